@@ -119,6 +119,20 @@ Proof. intros a b. unfold node_eqb. destruct (node_eq_dec a b); split; congruenc
 Lemma lit_eqb_true : forall a b, lit_eqb a b = true <-> a = b.
 Proof. intros a b. unfold lit_eqb. destruct (lit_eq_dec a b); split; congruence. Qed.
 
+
+(* ---- value equivalence: equal up to the zone in which an instant is written (planner.sameValue after fix F14; the
+   comparison the specification uses everywhere) *)
+Definition cell_equiv (a b : cell) : bool :=
+  match a, b with
+  | CNull, CNull => true
+  | CStr x, CStr y => str_eqb x y
+  | CNode x, CNode y => node_eqb x y
+  | CPred x, CPred y => pred_key_eqb x y
+  | CLit x, CLit y => lit_eqb x y
+  | CTime x, CTime y => t_equal x y
+  | _, _ => false
+  end.
+
 (* Outcomes of model entry points: errors as a small enum, panics with their site *)
 Inductive errclass := EAppend | EDotProduct | EBound | EObjId | EOther.
 Inductive site := SiteBoundsRow | SiteStrObject | SiteJoinRange.
@@ -147,5 +161,5 @@ Record cfg := mkCfg {
   fix9 : bool;            (* LeftOptionalJoin NULL-extends when the right table is empty *)
   fix14 : bool;           (* addSpecifiedData skips fetched rows that disagree with the row on a shared binding *)
   fix15 : bool;           (* updateTimeBoundsForRow guards the missing cell and uses Before for the upper bound *)
-  fixoid : bool           (* tripleToRow: ID alias on an object checks the binding for nodes, skips literals *)
+  fixoid : bool           (* tripleToRow: ID alias on a literal object skips the triple (NULL if optional) instead of failing *)
 }.
